@@ -48,6 +48,7 @@ def c03(tier, seed):
             "bindgen/ir/comp.rs: CompInfo::is_packed (whether bit-fields are allocated with packed rules; callback iteration desugared by rule R16)",
             "bindgen/codegen/struct_layout.rs: StructLayoutTracker::pad_to_bitfield_unit, saw_bitfield_unit (unit layout; the unit lands at the clang offset of its first bit-field), align_to_latest_field and saw_field_with_layout (the running offset that placement is computed from: never rounded up inside a packed record)",
             "bindgen/codegen/mod.rs: the accessor-emitting statement of <Bitfield as FieldCodegen>::codegen and Bitfield::extend_ctor_impl (unit bf_accessors, rule R4q): getter, setter, raw getter, raw setter (wrapper-union and const-generic forms) and the constructor step all address the bit-field's own unit field, offset_into_unit and width, in that order",
+            "bindgen/ir/comp.rs: CompInfo::compute_bitfield_units (unit bf_getters): the allocation of bit-field units runs with exactly the packing CompInfo::is_packed reports",
             "bindgen/ir/comp.rs: Bitfield::{offset, bitfield_width, is_public, offset_into_unit, width} (unit bf_getters): code generation reads the stored clang offset, width and offset-into-unit unchanged - for zero-width separators too",
             "bindgen/codegen/mod.rs: the unit-start closure of <BitfieldUnit as FieldCodegen>::codegen (unit bf_unit_start, rule R18 brace-less closure: unit start = clang offset of the field - its offset into the unit)",
         ],
@@ -205,10 +206,10 @@ def c02(tier, seed):
 
 
 def c10(tier, seed):
-    return _verus_prop("C10", tier, seed, [("layout", r"::(blob|Layout::known_type_for_size|Layout::for_size_internal|Layout::for_size|integer_type|bitfield_unit|Layout::new|align_to|comp_tail_layout)::", None), ("opaque", None, None), ("vouch", None, None), ("impl_debug", r"::(array_arm|instantiation_arm)::", None), ("base_storage", None, None), ("lattice_constrain", r"::HasVtableAnalysis::", None), ("prim_types", r"::(BindgenContext::is_stdint_type|type_from_named)::", None),
+    return _verus_prop("C10", tier, seed, [("layout", r"::(blob|Layout::known_type_for_size|Layout::for_size_internal|Layout::for_size|integer_type|bitfield_unit|Layout::new|align_to|comp_tail_layout)::", None), ("opaque", None, None), ("vouch", None, None), ("impl_debug", r"::(array_arm|instantiation_arm)::", None), ("base_storage", None, None), ("trace_impls", r"::Type::should_be_traced_unconditionally::", None), ("lattice_constrain", r"::HasVtableAnalysis::", None), ("prim_types", r"::(BindgenContext::is_stdint_type|type_from_named)::", None),
                                            ("constrain", r"::CannotDerive::constrain_type::", None), ("blocklist", None, None), ("repr", None, None)], {
         "trusted_base": LAYOUT_TRUST,
-        "functions_under_contract": ["bindgen/ir/context.rs: BindgenContext::lookup_sizedness and bindgen/ir/comp.rs: Base::requires_storage, Base::is_virtual (unit base_storage): a base class gets a field of its own unless it is virtual or zero-sized, and a type outside the analysed set (a blocklisted class) counts as zero-sized only when the C compiler gives it no size or it is an empty class - so the use of a blocklisted type as a base still names it (found and repaired F28)", "bindgen/codegen/helpers.rs: blob, integer_type, bitfield_unit", "bindgen/ir/layout.rs: Layout::{known_type_for_size, new, for_size_internal, for_size}",
+        "functions_under_contract": ["bindgen/ir/ty.rs: Type::should_be_traced_unconditionally (unit trace_impls, shared with C09): pointers, references, arrays, functions, compounds, instantiations and resolved references are traced even when the item is opaque, so an opaque type reachable only through an array is still emitted as a blob", "bindgen/ir/context.rs: BindgenContext::lookup_sizedness and bindgen/ir/comp.rs: Base::requires_storage, Base::is_virtual (unit base_storage): a base class gets a field of its own unless it is virtual or zero-sized, and a type outside the analysed set (a blocklisted class) counts as zero-sized only when the C compiler gives it no size or it is an empty class - so the use of a blocklisted type as a base still names it (found and repaired F28)", "bindgen/codegen/helpers.rs: blob, integer_type, bitfield_unit", "bindgen/ir/layout.rs: Layout::{known_type_for_size, new, for_size_internal, for_size}",
                                      "bindgen/codegen/mod.rs: Item::process_before_codegen and <Item as CodeGenerator>::codegen (unit blocklist): nothing at all is emitted for a blocklisted item, for an item disabled for code generation, or a second time for the same item - whatever the per-kind generators would do",
                                      "bindgen/ir/item.rs: Item::is_blocklisted; <Item as IsOpaque>::is_opaque, <Type as IsOpaque>::is_opaque (unit opaque: opaque exactly by annotation, by an --opaque-type name match, or through the type: Opaque kind, opaque instantiation / compound / referenced type)",
                                      "bindgen/codegen/mod.rs: the tail of CompInfo::codegen (unit layout, statement R18): an opaque record with a known layout gets exactly one field, a blob of exactly the C size and alignment, and repr(align)",
@@ -323,10 +324,10 @@ def c05(tier, seed):
 
 
 def c06(tier, seed):
-    return _verus_prop("C06", tier, seed, [("layout_tests", None, None), ("clang_layout", None, None), ("target_sel", None, None)], {
+    return _verus_prop("C06", tier, seed, [("layout_tests", None, None), ("clang_layout", None, None), ("target_sel", None, None), ("field_data", None, None)], {
         "trusted_base": ["extraction rules incl. R18 (closure and statement extraction) and span substitutions; env/layout_tests_env.rs: each assertion template (const-block / #[test] fn, offset_of! / addr_of! form) is an env constructor that records WHAT it asserts (field, number); message strings irrelevant",
                          "libclang's numbers (record size/alignment, field bit offsets) are the C compiler's for the selected target"],
-        "functions_under_contract": ["bindgen/lib.rs: the `is_host_build` statement and the `--target=` insertion statement of Bindings::generate (unit target_sel, statements R18): libclang is told the effective target, in front of the other arguments, whenever no explicit target was given and the effective target is not the host triple itself (so every number it reports is for the target the assertions are emitted for)", "bindgen/clang.rs: Cursor::offset_of_field and Type::fallible_{size,align,layout} (unit clang_layout: the asserted numbers are libclang's, without truncation)",
+        "functions_under_contract": ["bindgen/ir/comp.rs: RawField::new and the getters of FieldData (unit field_data): the bit offset (and bit-field width) clang reported for a member is stored as given and handed to code generation as stored", "bindgen/lib.rs: the `is_host_build` statement and the `--target=` insertion statement of Bindings::generate (unit target_sel, statements R18): libclang is told the effective target, in front of the other arguments, whenever no explicit target was given and the effective target is not the host triple itself (so every number it reports is for the target the assertions are emitted for)", "bindgen/clang.rs: Cursor::offset_of_field and Type::fallible_{size,align,layout} (unit clang_layout: the asserted numbers are libclang's, without truncation)",
                                      "bindgen/codegen/mod.rs: the per-member offset-assertion generator (filter_map closure) and the layout-assertion block of <CompInfo as CodeGenerator>::codegen (both extracted by rule R18); <TemplateInstantiation as CodeGenerator>::codegen (whole function)"],
         "assumptions": [
             "for structs/unions generated by CompInfo::codegen: with layout tests on, a known layout and no forward declaration exactly one assertion item is emitted; it asserts the size and the alignment libclang reported and embeds one offset assertion for every named data member with a known offset (= clang's bit offset / 8), none for bit-field units, none at all for opaque types; with layout tests off, nothing is emitted",
